@@ -16,7 +16,12 @@ Oracle: the implicit-cast list-table of docs/data_types.rst (+ "Null to any type
                          the supertype if both directions (Integer/Number -> Number); else the unique t /= Null
                          with imp(l,t) /\\ imp(r,t)
   result2(l,r,ttc,rt) := rt given ? rt : (one side promotes to the other ? common(l,r) : (ttc given ? ttc : common(l,r)))
-Obligations: table = doc; accept <=> accept2; result = result2 for the (ttc, rt) of every operator class;
+  docsub(a,b)         := a is b or below b in the "Type Hierarchy" tree of docs/data_types.rst (spec/typetree.py)
+Obligations: table = doc; class hierarchy = documented tree; accept <=> accept2; result = result2 for the (ttc, rt)
+of every operator class; for every operator class with a type_to_check T and NO declared return type (and an operator
+token, i.e. not an abstract base): result = Null \\/ docsub(result, T)  (the operation is defined on T; an operand type
+that reaches T only through an implicit cast - Boolean under String - is a value conversion and cannot be the result
+type, so such an operator has to declare its return type);
 check_* <=> promotion does not raise, for ALL (ttc, rt); commutativity for the commutative operator classes.
 """
 from __future__ import annotations
@@ -28,6 +33,7 @@ from typing import Any, Dict, List, Optional, Sequence, Tuple
 
 sys.path.insert(0, str(Path(__file__).resolve().parent.parent))
 from spec.docs import DOC_TYPE_TO_CLASS, implicit_cast_table  # noqa: E402
+from spec.typetree import subtype_or_equal, type_tree  # noqa: E402
 from vc import core, smt  # noqa: E402
 from vc.core import DISCHARGED, REFUTED, UNDECIDED, Check, pmap, run_smt  # noqa: E402
 from vc.pysrc import module_ast  # noqa: E402
@@ -59,6 +65,14 @@ class Ctx:
         for b in self.names:
             self.imp[("Null", b)] = True     # "Null to any type: Null is compatible with every type"
         self.idx = {n: i for i, n in enumerate(self.names)}
+        # documented hierarchy (docs/data_types.rst "Type Hierarchy" tree), as class names; reflexive + transitive
+        tree, self.tree_lines = type_tree()
+        self.doc_parent = {DOC_TYPE_TO_CLASS[c]: (DOC_TYPE_TO_CLASS[p] if p else None) for c, p in tree.items()}
+        self.docsub = {(DOC_TYPE_TO_CLASS[a], DOC_TYPE_TO_CLASS[b]) for a, b in subtype_or_equal(tree)}
+
+    def docsub_of_const(self, res: Any, sup: str) -> Any:
+        """res (Int term) is a documented subtype-or-equal of the type class `sup`."""
+        return Or(*[Eq(res, self.idx[a]) for a, b in sorted(self.docsub) if b == sup and a in self.idx])
 
     # spec relations as SMT terms over sort indices ---------------------------------------------------------
     def imp_t(self, a: SymEnum, b: SymEnum) -> Any:
@@ -139,6 +153,24 @@ def native(ctx: Ctx, fn: str, *names: Optional[str]) -> str:
         return f"raises {type(e).__name__}({e.args[1] if len(e.args) > 1 else e})"
 
 
+def native_operator(qual: str, operands: Sequence[Optional[str]]) -> str:
+    """Result type of the REAL operator class (`<module>.<Class>` below vtlengine.Operators) validated on scalar
+    operands of the given type classes."""
+    core.boot(full=True)
+    import importlib
+    mod, cls = qual.split(".", 1)
+    try:
+        c = getattr(importlib.import_module(f"vtlengine.Operators.{mod}"), cls)
+        dt = importlib.import_module("vtlengine.DataTypes")
+        model = importlib.import_module("vtlengine.Model")
+        args = [model.Scalar(name=f"sc_{i}", data_type=getattr(dt, n), value=None) for i, n in enumerate(operands)]
+        r = c.validate(*args)
+        t = getattr(r, "data_type", None)
+        return t.__name__ if isinstance(t, type) else repr(r)
+    except Exception as e:  # noqa: BLE001
+        return f"raises {type(e).__name__}({e.args[1] if len(e.args) > 1 else e})"
+
+
 def main() -> None:  # noqa: C901
     chk = Check("C11", "proof", "symbolic execution of the real promotion functions over the finite sort of scalar "
                 "type classes; equivalence with the documented implicit-cast table decided by z3/cvc5 for all "
@@ -174,6 +206,30 @@ def main() -> None:  # noqa: C901
                           f"says implicit {a}->{b} is {'allowed' if not got else 'not allowed'}"
     else:
         o.status, o.detail = DISCHARGED, "81 cells equal"
+
+    # ---- O1b: the subclass relation among the scalar type classes is the documented type hierarchy ---------
+    f_h = f"src/vtlengine/{REL}:ScalarType"
+    chk.under_contract(f_h)
+    o = chk.ob(f"{f_h}::class-hierarchy-equals-documented-tree", f_h,
+               f"for all scalar type classes a /= b: issubclass(a, b)  <=>  a is below b in the Type Hierarchy tree of "
+               f"docs/data_types.rst (lines {ctx.tree_lines[0]}-{ctx.tree_lines[1]}; Null is outside the tree and "
+               f"related to no class)")
+    o.backend = "ast+finite-relation"
+    code_sub = set(ctx.subclass_pairs())
+    doc_sub = {(a, b) for a, b in ctx.docsub if a != b}
+    if code_sub == doc_sub:
+        o.status, o.detail = DISCHARGED, f"{len(code_sub)} strict subtype pairs: {sorted(code_sub)}"
+    else:
+        diff = sorted(code_sub ^ doc_sub)
+        a, b = diff[0]
+        core.boot(full=True)
+        dtm = __import__("importlib").import_module("vtlengine.DataTypes")
+        real = issubclass(getattr(dtm, a), getattr(dtm, b))
+        o.status, o.witness = REFUTED, {"pairs": diff[:10]}
+        o.detail = f"(sub, super) pairs in exactly one of code / docs: {diff[:8]}"
+        o.replayed = real != ((a, b) in doc_sub)
+        o.replay_detail = f"issubclass({a}, {b}) = {real}; documented tree says {(a, b) in doc_sub}"
+        o.finding_key = "ScalarType-hierarchy::" + ",".join(f"{x}<{y}" for x, y in diff[:6])
 
     # ---- explore the four functions under the four None/given cases ---------------------------------------
     cases = {"ttc+rt": (ctx.t, ctx.rt), "ttc": (ctx.t, None), "rt": (None, ctx.rt), "none": (None, None)}
@@ -243,8 +299,11 @@ def main() -> None:  # noqa: C901
     ops = operator_classes(eng, ctx)
     chk.extra["operator_classes"] = len(ops)
     configs: Dict[Tuple[bool, Optional[str], Optional[str]], List[str]] = {}
+    tokens: Dict[str, Optional[str]] = {}
     for name, binary, tok, ttc, rt in ops:
         configs.setdefault((binary, ttc, rt), []).append(name)
+        tokens[name] = tok if tok not in (None, "None") else None
+    latent: Dict[str, str] = {}
     chk.extra["distinct_type_configurations"] = {f"{'binary' if b else 'unary'} ttc={t} rt={r}": v[:8]
                                                  for (b, t, r), v in sorted(configs.items(), key=str)}
 
@@ -269,10 +328,23 @@ def main() -> None:  # noqa: C901
                     f"type(s) <=> the documented table gives them a common type admitted by type_to_check={ttc_n}")
         ob2 = chk.ob(f"{f}::result-is-documented-type::{label}", f,
                      f"[{fam}] when accepted the result is return_type={rt_n} if declared, else the documented common type")
+        # operators that declare a type_to_check T but no return type: the result must be a type on which the
+        # operation (defined on T) can be carried out without a value conversion
+        concrete = [u for u in users if tokens.get(u)]
+        ob3 = None
+        if ttc_n is not None and rt_n is None and concrete:
+            ob3 = chk.ob(f"{f}::result-needs-no-conversion::{label}", f,
+                         f"[{fam}; operator classes {', '.join(concrete[:6])}{'...' if len(concrete) > 6 else ''} check "
+                         f"their operands against {ttc_n} and declare no return type] when accepted the result type is "
+                         f"Null or a subtype-or-equal of {ttc_n} in the documented Type Hierarchy (an operand type that "
+                         f"reaches {ttc_n} only through an implicit cast of the table is a value conversion, so it "
+                         f"cannot be the type of the result)")
         ab = aborted(ps)
         if ab:
             ob.status = ob2.status = UNDECIDED
             ob.detail = ob2.detail = ab
+            if ob3 is not None:
+                ob3.status, ob3.detail = UNDECIDED, ab
             continue
         if binary:
             spec_acc = ctx.accept2(t)
@@ -324,6 +396,51 @@ def main() -> None:  # noqa: C901
             ob2.finding_key = f"{pf}::result::{a}"
         else:
             ob2.status, ob2.detail = UNDECIDED, r2.raw[:200]
+        # no value conversion hidden in the result type (only when a type_to_check but no return type is declared)
+        if ttc_n is None or rt_n is not None:
+            continue
+        conv = []
+        for p in ps:
+            if p.kind != "return":
+                continue
+            try:
+                res = value_term(p.value, ctx.sort)
+            except ValueError:
+                conv.append(And(*p.pc))
+                continue
+            conv.append(And(And(*p.pc), Not(Or(Eq(res, ctx.idx["Null"]), ctx.docsub_of_const(res, ttc_n)))))
+        r3 = solve(ctx, fix + [Or(*conv)], f"O4b-{label}")
+        if ob3 is None:
+            # only abstract bases (no operator token, not reachable from any VTL operator) have this configuration:
+            # no operator to hold the clause against; recorded so that a concrete subclass inheriting it is expected
+            if r3.status == "sat":
+                a = arg_names(r3.model)
+                latent[f"{fam} {label} ({', '.join(users)})"] = \
+                    f"{pf}{tuple(a)} -> {native(ctx, pf, *a)}: a concrete operator inheriting this configuration " \
+                    f"without declaring return_type would fail result-needs-no-conversion"
+            continue
+        ob3.backend, ob3.seconds = r3.backend, r3.seconds
+        if r3.status == "unsat":
+            ob3.status = DISCHARGED
+        elif r3.status == "sat":
+            a = arg_names(r3.model)
+            real = native(ctx, pf, *a)
+            operands = a[:2] if binary else a[:1]
+            via_ops = {u: native_operator(u, operands) for u in concrete[:3]}
+            ob3.status = REFUTED
+            ob3.witness = {"args": a, "real": real, "operator_validate": via_ops,
+                           "documented_subtypes_of_type_to_check": sorted(x for x, y in ctx.docsub if y == ttc_n)}
+            ob3.detail = f"counter-model {r3.model}"
+            ob3.replayed = (not real.startswith("raises")) and real != "Null" and (real, ttc_n) not in ctx.docsub
+            ob3.replay_detail = f"{pf}{tuple(a)} -> {real}, which is neither Null nor a documented subtype of {ttc_n} " \
+                                f"(the operation runs on {ttc_n} values, the operand is converted, the result is not a " \
+                                f"{real}); real operator classes on scalar operands {operands}: " + \
+                                ", ".join(f"{u}.validate -> {v}" for u, v in via_ops.items())
+            ob3.finding_key = f"{concrete[0]}::result-needs-conversion::ttc={ttc_n}"
+        else:
+            ob3.status, ob3.detail = UNDECIDED, r3.raw[:200]
+    if latent:
+        chk.extra["abstract_operator_bases_outside_no_conversion_clause"] = latent
 
     # ---- O5: operand-order independence for commutative operator classes -----------------------------------
     swap_paths: Dict[str, List[PathResult]] = {}
@@ -372,6 +489,9 @@ def main() -> None:  # noqa: C901
     chk.assume("commutative operators are those whose class token is one of " + ", ".join(sorted(COMMUTATIVE_TOKENS)))
     chk.assume("'documented common type' when neither operand promotes to the other and no type_to_check is given is "
                "the unique non-Null type both promote to (docs give no rule for several candidates; none exist today)")
+    chk.assume("result-needs-no-conversion is held against operator classes that carry an operator token (`op = ...` in "
+               "the class or a base); abstract bases without a token (Numeric.Binary, String.Binary, ...) are not VTL "
+               "operators and are only listed in abstract_operator_bases_outside_no_conversion_clause")
     chk.assume("dataset/component-level validation reaches the promotion functions only through the dispatchers "
                "checked in O6 (per-measure loops of Operators.Binary/Unary are not themselves under contract)")
     chk.trust("vc.pyvc semantics for sets/classmethods/issubclass over the class hierarchy read from source")
